@@ -2,7 +2,7 @@
 from .. import common, specclass_run as R, tla
 
 ALL = ["scalars", "list_int", "set_str", "set_int", "dict_int", "nested", "nested_prep", "nested_prep_boom", "prepared", "prep_nonidem", "list_spec", "klist", "kset", "dict_spec",
-       "dnc_attr", "dnc_attr_decl", "dnc_class", "dflt_kinds", "dflt_kinds2", "inherit_spec", "inherit_plain", "inherit_plain_mut", "inherit_dnc", "bad_default", "eager"]
+       "dnc_attr", "dnc_attr_decl", "dnc_class", "dflt_kinds", "dflt_kinds2", "inherit_spec", "inherit_plain", "inherit_plain_mut", "inherit_dnc", "inherit_dnc_items", "spec_plain_spec", "bad_default", "attrs_arg", "eager"]
 ELEM = {"with_item", "update_item", "transform_item", "without_item"}
 
 
